@@ -352,9 +352,17 @@ fn one_corruption(ctx: &mut Ctx) {
         }
         "verify-header-wrong" => {
             let mut sum = ra.header_checksum.clone();
-            sum[gen::draw(64) as usize] ^= 1 << gen::draw(8);
-            extra.verify_header = Some(gen::hex(&sum));
-            what = "--verify-header with a checksum that differs in one bit".to_string();
+            if gen::chance(1, 3) {
+                // the right checksum without its last hex digit
+                let mut h = gen::hex(&sum);
+                h.pop();
+                extra.verify_header = Some(h);
+                what = "--verify-header with the right checksum minus its last hex digit (127 digits)".to_string();
+            } else {
+                sum[gen::draw(64) as usize] ^= 1 << gen::draw(8);
+                extra.verify_header = Some(gen::hex(&sum));
+                what = "--verify-header with a checksum that differs in one bit".to_string();
+            }
         }
         _ => {
             extra.verify_header = Some(gen::hex(&ra.header_checksum));
